@@ -32,6 +32,10 @@ CONSTANTS
   Panics,     \* "recover": a panic of the parser on one command (index out of range) is caught around that command:
               \*            the commands read before it are answered, then protocol error and close (as coded since 9fc07cf)
               \* "crash"  : as coded before: the panic on the connection goroutine kills the process
+  ReadBuf,    \* size of the per-connection socket read buffer (netServe: make([]byte, 0xFFFF)): one conn.Read returns at most this
+  PktBuf,     \* size of PipelineReader.packet ([0xFFFF]byte): one ReadMessages call takes at most this many bytes of what
+              \* conn.Read returned; the rest stays in the connection's InputStream until the NEXT conn.Read returns.
+              \* As coded the two are equal, so nothing ever stays behind.
   Sniff       \* how a first byte G/P/O (possible HTTP request) is told from a telnet-style line:
               \* "line": by the first line, however terminated (intended: LF-terminated telnet lines are commands)
               \* "crlf": as coded in readNextCommand: only a CRLF ends the sniffed line, a bare LF is skipped,
@@ -305,7 +309,9 @@ ReadMessages(data, msgs, sniff) ==
 (* (for the error tail), closed, crashed.                                   *)
 \* a reply: x = "cmd" (answer to args), "bad500" (empty command name), "errtail" (protocol error, then close)
 Rep(x, t, enc, args) == [x |-> x, t |-> t, enc |-> enc, args |-> args]
-InitConn == [carry |-> <<>>, out |-> <<>>, otype |-> "none", lastT |-> "none", lastEnc |-> "none",
+\* carry: PipelineReader.buf (an incomplete command); inb: InputStream.b (bytes conn.Read returned that ReadMessages
+\* has not taken yet)
+InitConn == [carry |-> <<>>, inb |-> <<>>, out |-> <<>>, otype |-> "none", lastT |-> "none", lastEnc |-> "none",
              closed |-> FALSE, crashed |-> FALSE]
 
 Transport(kind) == IF kind \in {"resp", "telnet"} THEN "resp" ELSE kind        \* Message.ConnType
@@ -324,16 +330,25 @@ Handle(c, msgs, i) ==
                IN IF m.kind = "http" THEN [c2 EXCEPT !.closed = TRUE]         \* one request per HTTP connection
                   ELSE Handle(c2, msgs, i + 1)
 
-\* one TCP segment arrives
-RecvS(c, seg, sniff) ==
+\* one conn.Read returns `seg` (at most ReadBuf bytes): InputStream.Begin, one ReadMessages over the first PktBuf
+\* bytes, InputStream.End keeps the rest
+RecvOne(c, seg, sniff) ==
   IF c.closed \/ c.crashed THEN c
-  ELSE LET b  == ReadMessages(c.carry \o seg, <<>>, sniff) IN
+  ELSE LET data == c.inb \o seg
+           pkt  == Sub(data, 1, IF Len(data) < PktBuf THEN Len(data) ELSE PktBuf)
+           rest == From(data, PktBuf + 1)
+           b    == ReadMessages(c.carry \o pkt, <<>>, sniff) IN
        IF b.st = "panic" THEN [c EXCEPT !.crashed = TRUE]
-       ELSE LET c1 == Handle([c EXCEPT !.carry = b.rest], b.msgs, 1) IN
+       ELSE LET c1 == Handle([c EXCEPT !.carry = b.rest, !.inb = rest], b.msgs, 1) IN
             IF c1.closed \/ b.st = "ok" THEN c1
             ELSE \* protocol error: answered only when the last answered message came over RESP/telnet; then close
                  [c1 EXCEPT !.closed = TRUE,
                             !.out = IF c1.lastT = "resp" THEN Append(@, Rep("errtail", "resp", c1.lastEnc, <<>>)) ELSE @]
+\* one TCP segment arrives: the read loop takes it in pieces of at most ReadBuf bytes
+RECURSIVE RecvS(_, _, _)
+RecvS(c, seg, sniff) ==
+  IF Len(seg) <= ReadBuf THEN RecvOne(c, seg, sniff)
+  ELSE RecvS(RecvOne(c, Sub(seg, 1, ReadBuf), sniff), From(seg, ReadBuf + 1), sniff)
 
 Recv(c, seg) == RecvS(c, seg, Sniff)
 RecvAll(bytes) == Recv(InitConn, bytes)        \* the whole stream in one segment
